@@ -151,6 +151,26 @@ type caseInfo struct {
 	Subset []int    `json:"subset,omitempty"`
 	Excl   string   `json:"excl,omitempty"`
 	Script []string `json:"script,omitempty"` // mode "seq": the call sequence run on the caller's own slices (seq.go)
+	// Probe (mode "pdf", long documents): the pages whose own result was requested one by one
+	// (Pages(k)); the other pages are covered by the whole-document and the subset request
+	// only. Empty = every page.
+	Probe []int `json:"probe,omitempty"`
+	// Range: the subset is contiguous and is requested as PageRange(first, last).
+	Range bool `json:"range,omitempty"`
+}
+
+// probedSet: which pages carry a per-page result (all of them when no probe list is given).
+func probedSet(ci caseInfo) []bool {
+	out := make([]bool, len(ci.Doc.Pages))
+	for i := range out {
+		out[i] = len(ci.Probe) == 0
+	}
+	for _, k := range ci.Probe {
+		if k >= 0 && k < len(out) {
+			out[k] = true
+		}
+	}
+	return out
 }
 
 func keptSet(ids []int) map[int]bool {
@@ -180,14 +200,21 @@ func checkDoc(c *hx.Ctx, ci caseInfo, kept [][]int, isSub []bool) {
 	if accidental {
 		c.Count("page-of-short-fragments(treated-as-character-level)")
 	}
+	probed := probedSet(ci)
 	// 1. the result is the input minus some fragments, in the same order
 	for pi := range d.Pages {
+		if !probed[pi] {
+			continue
+		}
 		c.Check("C11/not-sublist", isSub[pi], ci, func() string {
 			return fmt.Sprintf("page %d: filtered fragments are not a subsequence of the page's fragments", pi)
 		})
 	}
 	changed := false
 	for pi, p := range d.Pages {
+		if !probed[pi] {
+			continue
+		}
 		if !isSub[pi] {
 			changed = true
 			continue
@@ -283,7 +310,19 @@ func firstNumber(s string) (int, bool) {
 	return n, true
 }
 
-func liveness(c *hx.Ctx, ci caseInfo, views []pageView, kept [][]int, isSub []bool, top bool) {
+// idealChain is one line of the ideal liveness case: present on every page at exactly one
+// marginal position, its normalised text nowhere else in that band; units[p] is the line on page p.
+type idealChain struct {
+	okey  string // C11/repeated-header-kept or C11/page-number-kept
+	top   bool
+	dist  int
+	units []unit
+}
+
+// idealChains lists the lines the last sentence of the statement speaks about: a line
+// repeated at the same marginal position on every page, and running page numbers.
+func idealChains(views []pageView, top bool) []idealChain {
+	var out []idealChain
 	inBand := func(u unit) bool {
 		if top {
 			return u.top
@@ -350,9 +389,18 @@ func liveness(c *hx.Ctx, ci caseInfo, views []pageView, kept [][]int, isSub []bo
 		if !sameText {
 			okey = "C11/page-number-kept"
 		}
+		out = append(out, idealChain{okey: okey, top: top, dist: dist(u0), units: chain})
+	}
+	return out
+}
+
+func liveness(c *hx.Ctx, ci caseInfo, views []pageView, kept [][]int, isSub []bool, top bool) {
+	probed := probedSet(ci)
+	for _, ch := range idealChains(views, top) {
+		okey := ch.okey
 		c.Count("oracle:liveness:" + okey[4:])
-		for pi, w := range chain {
-			if !isSub[pi] {
+		for pi, w := range ch.units {
+			if !probed[pi] || !isSub[pi] {
 				continue
 			}
 			ks := keptSet(kept[pi])
@@ -371,7 +419,7 @@ func liveness(c *hx.Ctx, ci caseInfo, views []pageView, kept [][]int, isSub []bo
 					where = "top"
 				}
 				return fmt.Sprintf("%q sits at the same %s-margin position (x=%d, %d pt from the edge) on all %d pages but was kept on page %d",
-					w.text, where, w.x, dist(w), len(views), pi)
+					w.text, where, w.x, ch.dist, len(views), pi)
 			})
 		}
 	}
